@@ -1,8 +1,8 @@
 (* C16 property theorems: statements only, each closed by [exact]. *)
 From Coq Require Import NArith ZArith List Bool.
 From Coq.Strings Require Import Byte.
-From LV Require Import Lib.Bytes Model.C16_Env Model.C16_Wire Model.C16_Url Model.C16_All
-  Proofs.C16_Env Proofs.C16_Wire Proofs.C16_Url Proofs.C16_All.
+From LV Require Import Lib.Bytes Model.C16_Env Model.C16_Wire Model.C16_Url Model.C16_All Model.C16_Attrs
+  Proofs.C16_Env Proofs.C16_Wire Proofs.C16_Url Proofs.C16_All Proofs.C16_Attrs.
 Import ListNotations.
 
 (* ================= (a) the signature envelope (base.py Signable, purchase.py) ================= *)
@@ -69,12 +69,18 @@ Theorem C16_int64_roundtrip : forall z : Z, (- 2 ^ 63 <= z < 2 ^ 63)%Z ->
 Proof. exact int64_roundtrip. Qed.
 Print Assumptions C16_int64_roundtrip.
 
-(* flat messages: any list of canonical fields (number 1..2^29-1; varint < 2^64, 8 / 4 byte fixed, or
+(* flat messages: any list of canonical fields (number 1..2^61-1, i.e. every tag that fits 64 bits; varint < 2^64, 8 / 4 byte fixed, or
    length-delimited bytes) parses back to the same list *)
 Theorem C16_wire_roundtrip : forall fs : list field,
   forallb field_ok fs = true -> wire_parse (ser_fields fs) = WOk fs.
 Proof. exact wire_roundtrip. Qed.
 Print Assumptions C16_wire_roundtrip.
+
+(* whatever the parser returns is canonical, for ALL byte strings: parse . serialise . parse = parse *)
+Theorem C16_wire_parse_normalises : forall (bs : bytes) (fs : list field),
+  wire_parse bs = WOk fs -> forallb field_ok fs = true /\ wire_parse (ser_fields fs) = WOk fs.
+Proof. exact (fun bs fs H => conj (wire_parse_canonical bs fs H) (wire_parse_normalises bs fs H)). Qed.
+Print Assumptions C16_wire_parse_normalises.
 
 (* nested messages, for EVERY schema table: a field tree that fits the schema (sub-messages where the
    schema declares a message, recursively) parses back to itself *)
@@ -158,6 +164,38 @@ Theorem C16_url_rejects_bad_modifier : forall (p pre nm : str) (c : N) (x : str)
 Proof. exact url_rejects_bad_modifier. Qed.
 Print Assumptions C16_url_rejects_bad_modifier.
 
+(* a string has at most one reading; printing is injective; the canonical spelling is a fixed point *)
+Theorem C16_url_unambiguous : forall (s : str) (u1 u2 : url), in_grammar s u1 -> in_grammar s u2 -> u1 = u2.
+Proof. exact url_unambiguous. Qed.
+Print Assumptions C16_url_unambiguous.
+
+Theorem C16_url_print_injective : forall u1 u2 : url, url_wf u1 -> url_wf u2 -> url_print u1 = url_print u2 -> u1 = u2.
+Proof. exact url_print_inj. Qed.
+Print Assumptions C16_url_print_injective.
+
+Theorem C16_url_canon_stable : forall (s : str) (u : url),
+  url_parse s = Some u -> url_parse (canon s) = Some u /\ canon (canon s) = canon s.
+Proof. exact url_canon_stable. Qed.
+Print Assumptions C16_url_canon_stable.
+
+(* ================= (d) hex / byte-order views of the accessors ================= *)
+
+(* unhexlify (hexlify b) = b for every byte string: sd_hash, file_hash, bt_infohash, public_key *)
+Theorem C16_hex_roundtrip : forall b : bytes, unhexlify (hexlify b) = Some b.
+Proof. exact unhexlify_hexlify. Qed.
+Print Assumptions C16_hex_roundtrip.
+
+(* claim_id / signing_channel_id (reversed byte order): the hash read back is the hash that was set *)
+Theorem C16_claim_id_roundtrip : forall h : bytes, hash_of_claim_id (claim_id_of_hash h) = Some h.
+Proof. exact claim_id_roundtrip. Qed.
+Print Assumptions C16_claim_id_roundtrip.
+
+(* the id of a 20-byte hash is 40 lower-case hex digits, i.e. a full claim id of the URL grammar *)
+Theorem C16_claim_id_shape : forall h : bytes, length h = 20%nat ->
+  length (claim_id_of_hash h) = 40%nat /\ forallb is_lower_hex (claim_id_of_hash h) = true.
+Proof. exact claim_id_shape. Qed.
+Print Assumptions C16_claim_id_shape.
+
 (* ================= non-vacuity ================= *)
 Example C16_ex_env : env_decode (env_encode (Signed (repeat x07 20) (repeat x05 64) [x0a; x00])) =
                      EnvOk (Signed (repeat x07 20) (repeat x05 64) [x0a; x00]).
@@ -185,3 +223,6 @@ Example C16_ex_reject : (url_parse [102; 111; 111; 10], url_parse [97; 58; 103],
 Proof. vm_compute. reflexivity. Qed.
 Example C16_ex_bad_modifier : bad_modifier 58 [103] /\ bad_modifier 36 [48].
 Proof. exact bad_modifier_inhabited. Qed.
+Example C16_ex_claim_id : (claim_id_of_hash [x01; xab; xff], hash_of_claim_id [x66; x46; x61; x62; x30; x31]) =
+                          ([x66; x66; x61; x62; x30; x31], Some [x01; xab; xff]).
+Proof. vm_compute. reflexivity. Qed.
